@@ -1,3 +1,4 @@
+from checks import pure_fns
 """C13 — Runs are reproducible from their seeds and independent of thread scheduling."""
 import os
 import sys
@@ -51,6 +52,7 @@ RULE = ("ambient-state list and Clone field maps regenerated from /repo/src on e
 
 
 def main(ck):
+    pure_fns.run(ck)   # source->Lean translation (group Stepper: cadence arithmetic of both tempering drivers, required pairwise identical), agreement theorems re-checked
     ck.extra_trusted += [
         "tools/extract_fields.py (ambient-state scan by token list + enclosing fn; Clone field maps; fails closed on unknown shapes)",
         "disjointness of rayon task footprints = safe Rust's &mut uniqueness (the crate has #![forbid(unsafe_code)], checked) and rayon's par_iter_mut/zip/chunks semantics: trusted, observed by the pool-size runs",
